@@ -13,7 +13,7 @@ META = {
     "level_text": "Exploration: Hypothesis-seeded generator of functions made of if/elif/else, for/while with break/continue/else, try/except(as)/else/finally with injected raises, with (failing __enter__), match captures, inner functions reading/assigning/deleting a closure cell via nonlocal, comprehensions, guarded return, over 2-4 locals plus closure/loop/except-as/with-as/match/global names of two value classes (int literals only - a candidate for C integer inference - or strings). Every function is executed for all 2^b (b <= 6) inputs, so each path combination of the skeleton runs; each read/del logs a marker and then the value or (UnboundLocalError|NameError, variable name). Compared with CPython on the same source, in the default configuration (programs rejected for a definitely-unbound read are checked against CPython: every execution reaching that read must fail) and in the lenient configuration (error_on_uninitialized / error_on_unknown_names off). Sampling of programs, exhaustive in the selector bits; no proof.",
     "level_note": "Trusts CPython 3.12 as reference; exception message texts are not compared (type and variable name are); compiled code runs in isolated runner subprocesses (a crash is a violation); no sanitizer run in this check.",
 }
-K = 20
+K = 8
 
 
 def case_of(it, exprs, lenient=False):
@@ -80,8 +80,9 @@ def bucket_of(src, cls_map, r, g, cls, lenient=False):
 
 
 def _bucket_of(src, cls_map, r, g, cls):
-    """[default:|lenient:]<what>|<variable kind><value class>|<access kind>:   what = stale (CPython unbound, compiled produced a
-    value), spurious (CPython bound, compiled unbound), exctype:A->B, name (other variable named), flow, crash"""
+    """<what>|<variable kind>:<value class>|<access kind>;  what = stale (CPython raises for the access, compiled
+    code produced a value / went on), spurious (CPython bound, compiled raises), exctype:A->B, name (a different
+    variable is named), value (both bound, values differ), flow (anything else)"""
     kind = cls.split(":")[0]
     if kind.startswith("crash") or kind in ("timeout", "notrun"):
         return cls
@@ -89,40 +90,42 @@ def _bucket_of(src, cls_map, r, g, cls):
     i = 0
     while i < len(rl) and i < len(gl) and rl[i] == gl[i]:
         i += 1
-    # last marker at or before the divergence
-    rid = None
-    for e in reversed(rl[:i + 1] if i < len(rl) else rl):
-        if _is_at(e):
-            rid = int(e[1][1][1])
+    # the access in question: last marker in the common prefix
+    rid, k = None, None
+    for k in range(min(i, len(rl)) - 1, -1, -1):
+        if _is_at(rl[k]):
+            rid = int(rl[k][1][1][1])
             break
-    var, acc = _var_of_read(src, rid) if rid is not None else ("?", "?")
+    if rid is None:
+        return "flow|?|?"
+    var, acc = _var_of_read(src, rid)
     vk = (var[0] if var else "?") + ":" + cls_map.get(var, "?")
-    re_ = rl[i] if i < len(rl) else None
-    ge_ = gl[i] if i < len(gl) else None
-    if re_ is None and ge_ is None:
-        # logs equal: the final outcome differs (bare read/del propagating)
-        rv, gv = json.dumps(r[:2]), json.dumps(g[:2])
-        ru, gu = "'unbound'" in rv, "'unbound'" in gv
-        if ru and not gu:
-            what = "stale"
-        elif gu and not ru:
-            what = "spurious"
-        elif ru and gu:
-            rt = re.findall(r"'(\w*Error)'", rv)
-            gt = re.findall(r"'(\w*Error)'", gv)
-            what = "exctype:%s->%s" % (rt[:1], gt[:1]) if rt != gt else "name"
-        else:
-            what = "result"
-        return "%s|%s|%s" % (what, vk, acc)
-    if re_ is not None and _is_ub(re_) and (ge_ is None or not _is_ub(ge_)):
+
+    def failed(log, o):
+        f = access_failed(log, k, acc, rid)
+        if f is True and k + 1 >= len(log) and "'unbound'" not in json.dumps(o[:2]):
+            return None
+        return f
+
+    rf, gf = failed(rl, r), failed(gl, g)
+    if rf is True and gf is False:
         return "stale|%s|%s" % (vk, acc)
-    if ge_ is not None and _is_ub(ge_) and (re_ is None or not _is_ub(re_)):
+    if rf is True and gf is None and acc == "del":
+        return "stale|%s|%s" % (vk, acc)
+    if rf is False and gf is True:
         return "spurious|%s|%s" % (vk, acc)
-    if re_ is not None and ge_ is not None and _is_ub(re_) and _is_ub(ge_):
-        if re_[1][2] != ge_[1][2]:
-            return "exctype:%s->%s|%s|%s" % (re_[1][2][1].strip("'"), ge_[1][2][1].strip("'"), vk, acc)
-        return "name|%s|%s" % (vk, acc)
-    if re_ is not None and ge_ is not None and not _is_at(re_) and not _is_at(ge_):
+    if rf is True and gf is True:
+        ru = rl[k + 1] if k + 1 < len(rl) and _is_ub(rl[k + 1]) else None
+        gu = gl[k + 1] if k + 1 < len(gl) and _is_ub(gl[k + 1]) else None
+        rv = json.dumps(ru[1][2:] if ru else r[:2])
+        gv = json.dumps(gu[1][2:] if gu else g[:2])
+        rt, gt = re.findall(r"'(\w*Error)'", rv), re.findall(r"'(\w*Error)'", gv)
+        if rt[:1] != gt[:1]:
+            return "exctype:%s->%s|%s|%s" % ("".join(rt[:1]), "".join(gt[:1]), vk, acc)
+        if rv != gv:
+            return "name|%s|%s" % (vk, acc)
+        return "flow-after-unbound|%s|%s" % (vk, acc)
+    if rf is False and gf is False:
         return "value|%s|%s" % (vk, acc)
     return "flow|%s|%s" % (vk, acc)
 
@@ -334,16 +337,16 @@ def _reduce_one(job):
             if cls is not None and bucket_of(text, case.get("cls", {}), r, g, cls, case.get("lenient", False)) == bucket:
                 return True
         return False
-    return bucket, e2util.reduce_ast(case["src"], pred, budget=12)
+    return bucket, e2util.reduce_ast(case["src"], pred, budget=10)
 
 
 def run(ctx):
     nmods = 1 if ctx.quick else 16
-    ctx.pmap(_shard, [(ctx.seed, s, nmods) for s in range(16)])
+    ctx.pmap(_shard, [(ctx.seed, s, nmods) for s in range(8 if ctx.quick else 16)])
     findings = harness.load_findings()
     firsts = {}
     for bucket, case, what in ctx.violations:
-        if "|" in bucket and bucket not in firsts and len(firsts) < 4 \
+        if "|" in bucket and bucket not in firsts and len(firsts) < 2 \
                 and harness.match_finding(PID, bucket, case, findings) is None:
             firsts[bucket] = case
     jobs = [(b, c, ctx.work) for b, c in firsts.items()]
@@ -355,9 +358,9 @@ def run(ctx):
             case = dict(case, src=smalls[bucket])
         out.append((bucket, case, what))
     ctx.violations = out
-    ctx.rule = ("Hypothesis-seeded control-flow skeletons (depth <= 3, <= ~24 statements) over 2-4 locals + closure cell / loop target / except-as / "
+    ctx.rule = ("Hypothesis-seeded control-flow skeletons (depth <= 3, <= ~16 statements) over 2-4 locals + closure cell / loop target / except-as / "
                 "with-as / match capture / global names, statements assign/del/read (88% of reads wrapped in try/except NameError, the rest propagate), "
-                "<= 6 selector bits, ALL 2^b inputs executed; 20 functions per module; even shards default configuration, odd shards lenient "
+                "<= 6 selector bits, ALL 2^b inputs executed; 8 functions per module, 8 modules in the quick tier; even shards default configuration, odd shards lenient "
                 "(Options.error_on_uninitialized = error_on_unknown_names = False); oracle = same source under CPython (marker, value or "
                 "(error type, variable name) per access, final outcome); programs rejected in the default configuration are checked against CPython "
                 "(every execution reaching the rejected access must fail there). non-trivial = the program has an access that is bound on one input and "
